@@ -177,6 +177,10 @@ theorem update_shape {h h' : Hist K} {v c : K} (hc : Coherent h) (hinv : Inv h.t
       h'.min = some (minO h.min v) ∧ h'.max = some (maxO h.max v) ∧ h'.cap = h.cap := by
   have hi : Inc h.bins := hinv.inc
   have hlen : h.bins.length ≤ h.cap := hinv.len
+  have hcpos : 0 < c := by
+    by_contra hn
+    rw [update_def, if_pos (not_lt.mp hn)] at hok
+    cases hok
   rw [update_def] at hok
   split at hok
   · simp at hok
@@ -240,12 +244,19 @@ theorem update_shape {h h' : Hist K} {v c : K} (hc : Coherent h) (hinv : Inv h.t
           obtain ⟨bp, bi, hbp, hbi⟩ := hnb
           have hlenl : (h.bins.insertIdx (locate h.bins v).2 (v, c)).length = h.bins.length + 1 := by
             rw [List.length_insertIdx, if_pos (le_of_lt (hidx hneg hne))]
-          obtain ⟨p, hp, e1, eu, e2, e3, e4⟩ := inPlace_shape (v := v) (c := c) cd sd hpos hbp hbi hr ha
-          rw [bd] at e1 eu hbp hbi
+          have hbp0 := hbp
+          have hbi0 := hbi
+          rw [bd] at hbp hbi
           have hbpv : bp.1 < v := insPos_before v h.bins _ bp (by rw [← hposeq]; omega) hbp
           have hvbi : v ≤ bi.1 := by
-            rw [hposeq] at hbi
-            exact not_lt.mp (insPos_stop v h.bins bi hbi)
+            have hbi' := hbi
+            rw [hposeq] at hbi'
+            exact not_lt.mp (insPos_stop v h.bins bi hbi')
+          have hvbi' : v < bi.1 := lt_of_le_of_ne hvbi (Ne.symm (hnohit bi.1 bi.2 hbi))
+          have hfp : 0 < bp.2 := lt_of_lt_of_le one_pos (h1 bp (List.mem_of_getElem? hbp))
+          have hfi : 0 < bi.2 := lt_of_lt_of_le one_pos (h1 bi (List.mem_of_getElem? hbi))
+          obtain ⟨p, hp, e1, eu, e2, e3, e4⟩ := inPlace_shape (v := v) (c := c) cd sd hpos hbp0 hbi0 hbpv hvbi' hfp hfi hcpos hr ha
+          rw [bd] at e1 eu
           have hlt := hidx hneg hne
           refine ⟨p, ?_, ?_, ?_, ?_, ?_, ?_, ?_⟩
           · rw [hins, hlenl]; rcases hp with rfl | rfl <;> omega
@@ -374,6 +385,6 @@ theorem update_inv {h h' : Hist K} {v c : K} (hc : Coherent h) (hinv : Inv h.toR
       rw [hb]; exact mergeAt_within p _ li lp lw
     · rw [hb]; exact mergeAt_one1 p _ (insertRef_one1 v c hc1 h.bins h1)
     · rw [hb, mergeAt_mass, insertRef_mass]
-    · rw [hb, mergeAt_wsum p _ lp, insertRef_wsum]
+    · rw [hb, mergeAt_wsum p _ li lp, insertRef_wsum]
 
 end Distogram
